@@ -1,4 +1,762 @@
-//! C17 — stub, replaced when the property's harness lands.
-use crate::util::{Em, Rng};
+//! C17 — count / tf-idf vectorisers against a naive recount of the tokenised corpus.
+//!
+//! The tokeniser (NFKD, lower-casing, regex / function) stays on the Rust side: every document is
+//! tokenised with linfa's own `transform_string` (hook) and the configured regex / function, and the
+//! token lists travel to the model (`x` + hex of the UTF-8 bytes per token).  The real `fit` /
+//! `transform` calls tokenise on their own, so a change in their tokenisation path shows up as a
+//! disagreement.  The vocabulary comes out of a hash map: both sides are canonicalised by sorting
+//! the words and permuting the columns accordingly.
+use crate::util::*;
+use linfa::ParamGuard;
+use linfa_preprocessing::tf_idf_vectorization::{FittedTfIdfVectorizer, TfIdfMethod, TfIdfVectorizer};
+use linfa_preprocessing::verif_hooks_c17 as hk;
+use linfa_preprocessing::{CountVectorizer, CountVectorizerParams, CountVectorizerValidParams, Tokenizer};
+use ndarray::{Array1, Array2};
+use std::collections::{BTreeMap, BTreeSet};
 
-pub fn run(_em: &mut Em, _rng: &mut Rng) {}
+const POOL: &[&str] = &[
+    "one", "Two", "two", "TWO", "three", "four", "caf\u{e9}", "cafe\u{301}", "CAF\u{c9}", "\u{fb01}sh", "fish", "x", "a-b", "b;c", "it's", "\u{212b}ng", "\u{e5}ng", "na\u{ef}ve", "\u{130}st", "42", "two2",
+];
+const OOV: &[&str] = &["zebra", "Quux", "\u{fb03}x", "seven", "q"];
+const SEPS: &[&str] = &[" ", " ", " ", ", ", ";", "  ", ". ", "\n", " - ", "!"];
+const NOSPACE_RE: &str = r"\b[^ ][^ ]+\b";
+
+fn split_blank(s: &str) -> Vec<&str> {
+    s.split(' ').collect()
+}
+
+#[derive(Clone)]
+struct Cfg {
+    lower: bool,
+    norm: bool,
+    tok: u8, // 0 default regex, 1 no-blank regex, 2 function split(' ')
+    nmin: usize,
+    nmax: usize,
+    lo: f32,
+    hi: f32,
+    stop: Option<Vec<String>>,
+    cap: Option<usize>,
+}
+
+impl Cfg {
+    fn count_params(&self) -> CountVectorizerParams {
+        let mut p = CountVectorizer::params()
+            .convert_to_lowercase(self.lower)
+            .normalize(self.norm)
+            .n_gram_range(self.nmin, self.nmax)
+            .document_frequency(self.lo, self.hi)
+            .max_features(self.cap);
+        p = match self.tok {
+            1 => p.tokenizer(Tokenizer::Regex(NOSPACE_RE.to_string())),
+            2 => p.tokenizer(Tokenizer::Function(split_blank)),
+            _ => p,
+        };
+        if let Some(s) = &self.stop {
+            p = p.stopwords(s);
+        }
+        p
+    }
+    /// `TfIdfVectorizer` has no public setter for the idf method; a value with another method is
+    /// obtained through its public serde implementation, the settings are applied afterwards.
+    fn tfidf_params(&self, method: &str) -> TfIdfVectorizer {
+        let mut v = serde_json::to_value(TfIdfVectorizer::default()).expect("serialise TfIdfVectorizer");
+        v["method"] = serde_json::Value::String(
+            match method {
+                "smooth" => "Smooth",
+                "nonsmooth" => "NonSmooth",
+                _ => "Textbook",
+            }
+            .to_string(),
+        );
+        let mut p: TfIdfVectorizer = serde_json::from_value(v).expect("deserialise TfIdfVectorizer");
+        p = p
+            .convert_to_lowercase(self.lower)
+            .normalize(self.norm)
+            .n_gram_range(self.nmin, self.nmax)
+            .document_frequency(self.lo, self.hi)
+            .max_features(self.cap);
+        p = match self.tok {
+            1 => p.tokenizer(Tokenizer::Regex(NOSPACE_RE.to_string())),
+            2 => p.tokenizer(Tokenizer::Function(split_blank)),
+            _ => p,
+        };
+        if let Some(s) = &self.stop {
+            p = p.stopwords(s);
+        }
+        p
+    }
+    /// tokenisation-only settings (always valid), used to tokenise for the model and the oracle
+    fn tokenizer_params(&self) -> CountVectorizerValidParams {
+        let mut p = CountVectorizer::params().convert_to_lowercase(self.lower).normalize(self.norm);
+        p = match self.tok {
+            1 => p.tokenizer(Tokenizer::Regex(NOSPACE_RE.to_string())),
+            2 => p.tokenizer(Tokenizer::Function(split_blank)),
+            _ => p,
+        };
+        p.check().expect("tokeniser settings are valid")
+    }
+    fn covered(&self) -> bool {
+        self.nmin >= 1 && self.nmin <= self.nmax && self.nmax <= 3 && self.lo >= 0.0 && self.lo <= self.hi && self.hi <= 1.0
+    }
+    fn settings(&self) -> String {
+        format!(
+            "nmin={} nmax={} lo={} hi={} stop={} cap={}",
+            self.nmin,
+            self.nmax,
+            hex32(self.lo),
+            hex32(self.hi),
+            match &self.stop {
+                None => "none".to_string(),
+                Some(s) => format!("S:{}", list(s.iter(), |w| xw(w))),
+            },
+            match self.cap {
+                None => "none".to_string(),
+                Some(c) => c.to_string(),
+            }
+        )
+    }
+    fn class(&self) -> String {
+        format!(
+            "ngram={},{}:tok={}:stop={}:cap={}",
+            self.nmin,
+            self.nmax,
+            self.tok,
+            if self.stop.is_some() { "some" } else { "none" },
+            if self.cap.is_some() { "some" } else { "none" }
+        )
+    }
+}
+
+fn xw(w: &str) -> String {
+    format!("x{}", hexstr(w))
+}
+
+fn tokens(v: &CountVectorizerValidParams, doc: &str) -> Vec<String> {
+    let s = hk::transformed(v, doc);
+    if let Some(f) = v.tokenizer_function() {
+        f(&s).into_iter().map(|t| t.to_string()).collect()
+    } else {
+        v.split_regex().find_iter(&s).map(|m| m.as_str().to_string()).collect()
+    }
+}
+
+fn show_docs(d: &[Vec<String>]) -> String {
+    list2(d.iter().map(|x| x.iter()), |w| xw(w))
+}
+
+/// the windows of `nmin..=nmax` consecutive tokens, joined by one blank — from first principles
+fn naive_grams(toks: &[String], nmin: usize, nmax: usize) -> Vec<String> {
+    let mut out = vec![];
+    for i in 0..toks.len() {
+        for l in nmin..=nmax {
+            if l >= 1 && i + l <= toks.len() {
+                out.push(toks[i..i + l].join(" "));
+            }
+        }
+    }
+    out
+}
+
+fn gen_doc(rng: &mut Rng, alpha: &[&str], maxw: usize, oov: bool) -> String {
+    let k = rng.below(maxw + 1);
+    let mut s = String::new();
+    if rng.chance(1, 8) {
+        s.push_str(*rng.pick(SEPS));
+    }
+    for i in 0..k {
+        if i > 0 {
+            s.push_str(*rng.pick(SEPS));
+        }
+        if oov && rng.chance(1, 3) {
+            s.push_str(*rng.pick(OOV));
+        } else {
+            s.push_str(*rng.pick(alpha));
+        }
+    }
+    if rng.chance(1, 8) {
+        s.push_str(*rng.pick(SEPS));
+    }
+    s
+}
+
+fn gen_bound(rng: &mut Rng, n: usize) -> f32 {
+    const GRID: &[f32] = &[0.0, 0.05, 0.1, 0.2, 0.25, 0.3, 1.0 / 3.0, 0.4, 0.5, 0.6, 2.0 / 3.0, 0.7, 0.75, 0.8, 0.9, 1.0];
+    match rng.below(10) {
+        0..=3 => *rng.pick(GRID),
+        4..=6 if n > 0 => rng.below(n + 1) as f32 / n as f32,
+        7 if n > 0 => (rng.below(2 * n + 1) as f32 + 0.5) / (2 * n) as f32,
+        8 => (rng.below(1001) as f32) / 1000.0,
+        _ => *rng.pick(&[0.0f32, 1.0, 1.0, 0.5]),
+    }
+}
+
+fn gen_cfg(rng: &mut Rng, n_docs: usize) -> Cfg {
+    let ranges = [(1, 1), (1, 2), (2, 2), (1, 3), (2, 3), (3, 3)];
+    let (nmin, nmax) = if rng.chance(2, 5) { (1, 1) } else { *rng.pick(&ranges) };
+    let (lo, hi) = match rng.below(8) {
+        0 | 1 => (0.0, 1.0),
+        2 => (gen_bound(rng, n_docs), 1.0),
+        3 => (0.0, gen_bound(rng, n_docs)),
+        _ => {
+            let a = gen_bound(rng, n_docs);
+            let b = gen_bound(rng, n_docs);
+            if a <= b { (a, b) } else { (b, a) }
+        }
+    };
+    Cfg {
+        lower: !rng.chance(1, 3),
+        norm: !rng.chance(1, 3),
+        tok: *rng.pick(&[0u8, 0, 0, 1, 2]),
+        nmin,
+        nmax,
+        lo,
+        hi,
+        stop: None,
+        cap: None,
+    }
+}
+
+/// comparison of a relative bound with an absolute count: `bound * n` against `df`.
+/// `f32 * small integer` is exact in f64.  A difference that is not zero but below f32 resolution
+/// is a float tie (the user wrote 0.1 meaning 1/10): undecided, never alarmed on.
+#[derive(PartialEq, Clone, Copy)]
+enum Cmp {
+    Less,
+    Equal,
+    Greater,
+    Tie,
+}
+fn cmp_bound(bound: f32, n: usize, df: usize) -> Cmp {
+    let p = bound as f64 * n as f64;
+    let d = df as f64;
+    if p == d {
+        Cmp::Equal
+    } else if (p - d).abs() <= 4e-6 * d.max(1.0) {
+        Cmp::Tie
+    } else if p < d {
+        Cmp::Less
+    } else {
+        Cmp::Greater
+    }
+}
+fn is_frac(bound: f32, n: usize) -> bool {
+    let p = bound as f64 * n as f64;
+    (p - p.round()).abs() > 4e-6 * p.abs().max(1.0)
+}
+
+enum Adm {
+    In,
+    Out(String),
+    Undecided,
+}
+
+/// does the documented meaning of the settings admit an entry with document frequency `df`?
+/// "minimum and maximum (relative) document frequencies that each vocabulary entry must satisfy",
+/// "list of entries to be excluded from the generated vocabulary".
+fn admitted(cfg: &Cfg, n: usize, word: &str, df: usize) -> Adm {
+    if let Some(s) = &cfg.stop {
+        if s.iter().any(|w| w == word) {
+            return Adm::Out("stopword".into());
+        }
+    }
+    let lo = cmp_bound(cfg.lo, n, df);
+    let hi = cmp_bound(cfg.hi, n, df);
+    if lo == Cmp::Greater {
+        return Adm::Out(format!("below_min_df:lo*n={}", if is_frac(cfg.lo, n) { "fractional" } else { "integral" }));
+    }
+    if hi == Cmp::Less {
+        return Adm::Out(format!("above_max_df:hi*n={}", if is_frac(cfg.hi, n) { "fractional" } else { "integral" }));
+    }
+    if lo == Cmp::Tie || hi == Cmp::Tie {
+        return Adm::Undecided;
+    }
+    Adm::In
+}
+
+/// oracle for the fitted vocabulary (clauses vocab_*, cap_is_top)
+fn oracle_vocab(ctx: &mut Ctx, em_counts: &mut Vec<String>, cfg: &Cfg, fit_toks: &[Vec<String>], vocab: &[String]) {
+    let n = fit_toks.len();
+    let mut df: BTreeMap<String, usize> = BTreeMap::new();
+    for d in fit_toks {
+        let set: BTreeSet<String> = naive_grams(d, cfg.nmin, cfg.nmax).into_iter().collect();
+        for g in set {
+            *df.entry(g).or_insert(0) += 1;
+        }
+    }
+    let vset: BTreeSet<&String> = vocab.iter().collect();
+    ctx.require(vset.len() == vocab.len(), "vocab_distinct", &cfg.class(), || format!("vocabulary() lists an entry twice: {:?}", vocab));
+    for w in vocab {
+        ctx.require(df.contains_key(w), "vocab_from_corpus", &cfg.class(), || format!("vocabulary entry {:?} is no n-gram of the training corpus", w));
+    }
+    let mut adm: Vec<(usize, &String)> = vec![];
+    let mut undecided = 0;
+    let mut verdicts: Vec<(&String, usize, Adm)> = vec![];
+    for (w, d) in &df {
+        let a = admitted(cfg, n, w, *d);
+        match &a {
+            Adm::In => adm.push((*d, w)),
+            Adm::Undecided => undecided += 1,
+            _ => {}
+        }
+        verdicts.push((w, *d, a));
+    }
+    if undecided > 0 {
+        em_counts.push("df_float_tie_entries".into());
+    }
+    match cfg.cap {
+        None => {
+            for (w, d, a) in &verdicts {
+                match a {
+                    Adm::In => ctx.require(vset.contains(w), "vocab_complete", &cfg.class(), || {
+                        format!("entry {:?} (df {} of {} documents) is admitted by the settings (lo={} hi={} stop={:?}) but missing from the vocabulary", w, d, n, cfg.lo, cfg.hi, cfg.stop)
+                    }),
+                    Adm::Out(reason) => ctx.require(!vset.contains(w), "vocab_admits_only", reason, || {
+                        format!("entry {:?} (df {} of {} documents) is in the vocabulary although the settings exclude it: {} (lo={} hi={} stop={:?})", w, d, n, reason, cfg.lo, cfg.hi, cfg.stop)
+                    }),
+                    Adm::Undecided => {}
+                }
+            }
+        }
+        Some(cap) => {
+            if undecided > 0 {
+                em_counts.push("cap_check_skipped_df_float_tie".into());
+                return;
+            }
+            // most frequent first; equal frequencies: the code's documented-by-behaviour tie-break
+            // is not part of the statement, so only the frequency multiset is demanded, plus
+            // "kept ≥ dropped" by frequency.
+            adm.sort_by(|a, b| b.0.cmp(&a.0).then(b.1.cmp(a.1)));
+            let want = cap.min(adm.len());
+            let bad_out: Vec<&String> = vocab.iter().filter(|w| !adm.iter().any(|(_, a)| a == w)).collect();
+            let below_min = verdicts.iter().filter(|(w, _, a)| vset.contains(w) && matches!(a, Adm::Out(_))).map(|(_, _, a)| if let Adm::Out(r) = a { r.clone() } else { String::new() }).next();
+            if let Some(reason) = below_min {
+                ctx.fail("vocab_admits_only", &reason, format!("under cap {}: entries {:?} are in the vocabulary although the settings exclude them (lo={} hi={} n={} stop={:?})", cap, bad_out, cfg.lo, cfg.hi, n, cfg.stop));
+                return;
+            }
+            ctx.require(vocab.len() == want, "cap_size", &cfg.class(), || format!("cap {}: {} admitted entries, vocabulary has {} (want {})", cap, adm.len(), vocab.len(), want));
+            let kept_min = vocab.iter().filter_map(|w| df.get(w)).min().copied();
+            let dropped_max = adm.iter().filter(|(_, w)| !vset.contains(w)).map(|(d, _)| *d).max();
+            if let (Some(k), Some(d)) = (kept_min, dropped_max) {
+                ctx.require(k >= d, "cap_is_top", &cfg.class(), || format!("cap {}: a kept entry has document frequency {} but a dropped admitted entry has {}", cap, k, d));
+            }
+        }
+    }
+}
+
+/// oracle for a count matrix: cell (d, j) = occurrences of vocabulary()[j] among the n-grams of d
+fn oracle_counts(ctx: &mut Ctx, cfg: &Cfg, what: &str, tr_toks: &[Vec<String>], vocab: &[String], nentries: usize, dense: &Array2<usize>) -> Vec<Vec<usize>> {
+    let class = format!("{}:{}", what, cfg.class());
+    ctx.require(nentries == vocab.len(), "nentries", &class, || format!("nentries() = {} but vocabulary() has {} entries", nentries, vocab.len()));
+    ctx.require(dense.dim() == (tr_toks.len(), vocab.len()), "shape", &class, || format!("matrix is {:?} for {} documents and {} entries", dense.dim(), tr_toks.len(), vocab.len()));
+    let mut naive = vec![];
+    for (d, toks) in tr_toks.iter().enumerate() {
+        let grams = naive_grams(toks, cfg.nmin, cfg.nmax);
+        let row: Vec<usize> = vocab.iter().map(|w| grams.iter().filter(|g| *g == w).count()).collect();
+        if dense.dim() == (tr_toks.len(), vocab.len()) {
+            for (j, c) in row.iter().enumerate() {
+                if dense[(d, j)] != *c {
+                    ctx.fail("count_entry", &class, format!("document {} {:?}: column {} is vocabulary()[{}] = {:?}, which occurs {} times, matrix says {}", d, toks, j, j, vocab[j], c, dense[(d, j)]));
+                    break;
+                }
+            }
+            let in_vocab = grams.iter().filter(|g| vocab.contains(g)).count();
+            let total: usize = dense.row(d).sum();
+            ctx.require(total == in_vocab, "oov_contributes_zero", &class, || format!("document {}: row sums to {}, {} of its {} n-grams are vocabulary entries", d, total, in_vocab, grams.len()));
+        }
+        naive.push(row);
+    }
+    naive
+}
+
+fn idf_doc(method: &str, n: usize, df: usize) -> f64 {
+    let (n, df) = (n as f64, df as f64);
+    match method {
+        "smooth" => ((1.0 + n) / (1.0 + df)).ln() + 1.0,
+        "nonsmooth" => (n / df).ln() + 1.0,
+        _ => (n / (1.0 + df)).ln(),
+    }
+}
+
+fn oracle_tfidf(ctx: &mut Ctx, cfg: &Cfg, method: &str, what: &str, tr_toks: &[Vec<String>], vocab: &[String], nentries: usize, dense: &Array2<f64>) {
+    let class = format!("{}:method={}:{}", what, method, cfg.class());
+    ctx.require(nentries == vocab.len(), "nentries", &class, || format!("nentries() = {} but vocabulary() has {} entries", nentries, vocab.len()));
+    if dense.dim() != (tr_toks.len(), vocab.len()) {
+        ctx.fail("shape", &class, format!("matrix is {:?} for {} documents and {} entries", dense.dim(), tr_toks.len(), vocab.len()));
+        return;
+    }
+    let n = tr_toks.len();
+    let counts: Vec<Vec<usize>> = tr_toks
+        .iter()
+        .map(|toks| {
+            let grams = naive_grams(toks, cfg.nmin, cfg.nmax);
+            vocab.iter().map(|w| grams.iter().filter(|g| *g == w).count()).collect()
+        })
+        .collect();
+    for j in 0..vocab.len() {
+        let df = counts.iter().filter(|r| r[j] > 0).count();
+        for d in 0..n {
+            let c = counts[d][j];
+            let got = dense[(d, j)];
+            let ok = if c == 0 {
+                got == 0.0
+            } else {
+                let want = c as f64 * idf_doc(method, n, df);
+                (got - want).abs() <= 1e-12 * (1.0 + want.abs())
+            };
+            if !ok {
+                ctx.fail("tfidf_entry", &class, format!("document {} entry {:?}: count {}, n {}, df {}: got {}, want count*idf = {}", d, vocab[j], c, n, df, got, if c == 0 { 0.0 } else { c as f64 * idf_doc(method, n, df) }));
+                return;
+            }
+        }
+    }
+}
+
+/// sort the vocabulary, return (sorted words, permutation: sorted position -> original column)
+fn canon(vocab: &[String]) -> (Vec<String>, Vec<usize>) {
+    let mut idx: Vec<usize> = (0..vocab.len()).collect();
+    idx.sort_by(|a, b| vocab[*a].cmp(&vocab[*b]).then(a.cmp(b)));
+    (idx.iter().map(|i| vocab[*i].clone()).collect(), idx)
+}
+fn show_vocab(v: &[String]) -> String {
+    if v.is_empty() { "-".to_string() } else { list(v.iter(), |w| xw(w)) }
+}
+fn resp_counts(nentries: usize, vocab: &[String], dense: &Array2<usize>) -> String {
+    let (sv, perm) = canon(vocab);
+    let rows: Vec<Vec<usize>> = (0..dense.nrows()).map(|d| perm.iter().map(|j| dense[(d, *j)]).collect()).collect();
+    format!("ok n={} vocab={} counts={}", nentries, show_vocab(&sv), list2(rows.iter().map(|r| r.iter()), |c| c.to_string()))
+}
+fn resp_tfidf(nentries: usize, vocab: &[String], dense: &Array2<f64>) -> String {
+    let (sv, perm) = canon(vocab);
+    let rows: Vec<Vec<f64>> = (0..dense.nrows()).map(|d| perm.iter().map(|j| dense[(d, *j)]).collect()).collect();
+    format!("ok n={} vocab={} tfidf={}", nentries, show_vocab(&sv), list2(rows.iter().map(|r| r.iter()), |c| format!("~{}", hex64c(*c))))
+}
+
+fn err_kind(e: &linfa_preprocessing::PreprocessingError) -> String {
+    let s = format!("{:?}", e);
+    s.split(|c: char| !c.is_alphanumeric()).next().unwrap_or("").to_string()
+}
+
+struct Corpus {
+    fit: Vec<String>,
+    tr: Vec<String>,
+}
+
+fn gen_corpus(rng: &mut Rng, max_docs: usize, maxw: usize) -> Corpus {
+    let mut alpha: Vec<&str> = POOL.to_vec();
+    rng.shuffle(&mut alpha);
+    let k = 2 + rng.below(5);
+    let alpha = &alpha[..k];
+    let n = if rng.chance(1, 25) { 0 } else { 1 + rng.below(max_docs) };
+    let fit: Vec<String> = (0..n).map(|_| gen_doc(rng, alpha, maxw, false)).collect();
+    let unseen: Vec<String> = (0..rng.below(4)).map(|_| gen_doc(rng, alpha, maxw, true)).collect();
+    let tr = match rng.below(4) {
+        0 => fit.clone(),
+        1 => unseen,
+        _ => {
+            let mut t = fit.clone();
+            t.extend(unseen);
+            t
+        }
+    };
+    Corpus { fit, tr }
+}
+
+/// stop words / cap chosen with knowledge of the corpus, so that they bite
+fn add_stop_cap(rng: &mut Rng, cfg: &mut Cfg, fit_toks: &[Vec<String>]) {
+    let mut grams: BTreeSet<String> = BTreeSet::new();
+    let mut unis: BTreeSet<String> = BTreeSet::new();
+    for d in fit_toks {
+        grams.extend(naive_grams(d, cfg.nmin.max(1), cfg.nmax.max(cfg.nmin.max(1))));
+        unis.extend(d.iter().cloned());
+    }
+    let grams: Vec<String> = grams.into_iter().collect();
+    let unis: Vec<String> = unis.into_iter().collect();
+    if rng.chance(1, 2) {
+        let mut s = vec![];
+        for _ in 0..rng.below(4) {
+            match rng.below(6) {
+                0..=2 if !grams.is_empty() => s.push(rng.pick(&grams).clone()),
+                3 if !unis.is_empty() => s.push(rng.pick(&unis).clone()),
+                4 if !unis.is_empty() => s.push(rng.pick(&unis).to_uppercase()),
+                _ => s.push(rng.pick(OOV).to_string()),
+            }
+        }
+        cfg.stop = Some(s);
+    }
+    if rng.chance(2, 5) {
+        cfg.cap = Some(rng.below(grams.len() + 2));
+    }
+}
+
+fn op_count(em: &mut Em, cfg: &Cfg, corpus: &Corpus) {
+    let tp = cfg.tokenizer_params();
+    let fit_toks: Vec<Vec<String>> = corpus.fit.iter().map(|d| tokens(&tp, d)).collect();
+    let tr_toks: Vec<Vec<String>> = corpus.tr.iter().map(|d| tokens(&tp, d)).collect();
+    let op = format!("count fit={} tr={} {}", show_docs(&fit_toks), show_docs(&tr_toks), cfg.settings());
+    let mut extra: Vec<String> = vec![];
+    let covered = cfg.covered();
+    let class = format!("count:{}", cfg.class());
+    let body = |ctx: &mut Ctx| {
+        let fit = Array1::from(corpus.fit.clone());
+        let tr = Array1::from(corpus.tr.clone());
+        match cfg.count_params().fit(&fit) {
+            Err(e) => {
+                if covered {
+                    ctx.fail("fit_succeeds", &class, format!("fit returned {:?} on valid settings", e));
+                }
+                format!("err {}", err_kind(&e))
+            }
+            Ok(cv) => {
+                let vocab = cv.vocabulary().clone();
+                let dense: Array2<usize> = cv.transform(&tr).expect("transform").to_dense();
+                if covered {
+                    oracle_vocab(ctx, &mut extra, cfg, &fit_toks, &vocab);
+                    oracle_counts(ctx, cfg, "count", &tr_toks, &vocab, cv.nentries(), &dense);
+                }
+                resp_counts(cv.nentries(), &vocab, &dense)
+            }
+        }
+    };
+    if covered {
+        em.case_valid(op, &class, body)
+    } else {
+        em.case(op, body)
+    }
+    for k in extra {
+        em.count(&k);
+    }
+}
+
+fn op_tfidf(em: &mut Em, cfg: &Cfg, method: &str, corpus: &Corpus) {
+    let tp = cfg.tokenizer_params();
+    let fit_toks: Vec<Vec<String>> = corpus.fit.iter().map(|d| tokens(&tp, d)).collect();
+    let tr_toks: Vec<Vec<String>> = corpus.tr.iter().map(|d| tokens(&tp, d)).collect();
+    let op = format!("tfidf fit={} tr={} {} method={}", show_docs(&fit_toks), show_docs(&tr_toks), cfg.settings(), method);
+    let mut extra: Vec<String> = vec![];
+    let covered = cfg.covered();
+    let class = format!("tfidf:method={}:{}", method, cfg.class());
+    let body = |ctx: &mut Ctx| {
+        let fit = Array1::from(corpus.fit.clone());
+        let tr = Array1::from(corpus.tr.clone());
+        match cfg.tfidf_params(method).fit(&fit) {
+            Err(e) => {
+                if covered {
+                    ctx.fail("fit_succeeds", &class, format!("fit returned {:?} on valid settings", e));
+                }
+                format!("err {}", err_kind(&e))
+            }
+            Ok(tv) => {
+                let tv: FittedTfIdfVectorizer = tv;
+                let want_m = match method {
+                    "smooth" => TfIdfMethod::Smooth,
+                    "nonsmooth" => TfIdfMethod::NonSmooth,
+                    _ => TfIdfMethod::Textbook,
+                };
+                ctx.require(*tv.method() == want_m, "method_kept", &class, || format!("fitted method {:?}", tv.method()));
+                let vocab = tv.vocabulary().clone();
+                let dense: Array2<f64> = tv.transform(&tr).expect("transform").to_dense();
+                if covered {
+                    oracle_vocab(ctx, &mut extra, cfg, &fit_toks, &vocab);
+                    oracle_tfidf(ctx, cfg, method, "tfidf", &tr_toks, &vocab, tv.nentries(), &dense);
+                }
+                resp_tfidf(tv.nentries(), &vocab, &dense)
+            }
+        }
+    };
+    if covered {
+        em.case_valid(op, &class, body)
+    } else {
+        em.case(op, body)
+    }
+    for k in extra {
+        em.count(&k);
+    }
+}
+
+fn op_fixed(em: &mut Em, cfg: &Cfg, method: Option<&str>, words: &[String], tr_docs: &[String]) {
+    let tp = cfg.tokenizer_params();
+    let tr_toks: Vec<Vec<String>> = tr_docs.iter().map(|d| tokens(&tp, d)).collect();
+    let name = if method.is_some() { "fixed_tfidf" } else { "fixed" };
+    let mut op = format!("{} vocab={} tr={} nmin={} nmax={} lo={} hi={}", name, list(words.iter(), |w| xw(w)), show_docs(&tr_toks), cfg.nmin, cfg.nmax, hex32(cfg.lo), hex32(cfg.hi));
+    if let Some(m) = method {
+        op.push_str(&format!(" method={}", m));
+    }
+    let covered = cfg.covered();
+    let class = format!("{}:{}", name, cfg.class());
+    let body = |ctx: &mut Ctx| {
+        let tr = Array1::from(tr_docs.to_vec());
+        let wset: BTreeSet<&String> = words.iter().collect();
+        match method {
+            None => match cfg.count_params().fit_vocabulary(words) {
+                Err(e) => {
+                    if covered {
+                        ctx.fail("fit_succeeds", &class, format!("fit_vocabulary returned {:?} on valid settings", e));
+                    }
+                    format!("err {}", err_kind(&e))
+                }
+                Ok(cv) => {
+                    let vocab = cv.vocabulary().clone();
+                    let dense: Array2<usize> = cv.transform(&tr).expect("transform").to_dense();
+                    if covered {
+                        let vset: BTreeSet<&String> = vocab.iter().collect();
+                        ctx.require(vset == wset && vocab.len() == wset.len(), "fixed_vocab_is_given_set", &class, || format!("given {:?}, vocabulary() {:?}", words, vocab));
+                        oracle_counts(ctx, cfg, "fixed", &tr_toks, &vocab, cv.nentries(), &dense);
+                    }
+                    resp_counts(cv.nentries(), &vocab, &dense)
+                }
+            },
+            Some(m) => match cfg.tfidf_params(m).fit_vocabulary(words) {
+                Err(e) => {
+                    if covered {
+                        ctx.fail("fit_succeeds", &class, format!("fit_vocabulary returned {:?} on valid settings", e));
+                    }
+                    format!("err {}", err_kind(&e))
+                }
+                Ok(tv) => {
+                    let vocab = tv.vocabulary().clone();
+                    let dense: Array2<f64> = tv.transform(&tr).expect("transform").to_dense();
+                    if covered {
+                        let vset: BTreeSet<&String> = vocab.iter().collect();
+                        ctx.require(vset == wset && vocab.len() == wset.len(), "fixed_vocab_is_given_set", &class, || format!("given {:?}, vocabulary() {:?}", words, vocab));
+                        oracle_tfidf(ctx, cfg, m, "fixed", &tr_toks, &vocab, tv.nentries(), &dense);
+                    }
+                    resp_tfidf(tv.nentries(), &vocab, &dense)
+                }
+            },
+        }
+    };
+    if covered {
+        em.case_valid(op, &class, body)
+    } else {
+        em.case(op, body)
+    }
+}
+
+fn op_ngrams(em: &mut Em, words: &[String], nmin: usize, nmax: usize) {
+    let op = format!("ngrams words={} nmin={} nmax={}", list(words.iter(), |w| xw(w)), nmin, nmax);
+    let class = format!("ngrams:{},{}", nmin, nmax);
+    em.case_valid(op, &class, |ctx| {
+        let got = hk::ngram_list(words.iter().map(|s| s.as_str()).collect(), (nmin, nmax));
+        let mut flat: Vec<String> = got.iter().flatten().cloned().collect();
+        let mut want = naive_grams(words, nmin, nmax);
+        flat.sort();
+        want.sort();
+        ctx.require(flat == want, "ngrams_are_windows", &class, || format!("words {:?}: NGramList yields {:?}, the windows are {:?}", words, got, want));
+        format!("ok {}", list2(got.iter().map(|r| r.iter()), |w| xw(w)))
+    });
+}
+
+fn idf_method_name(i: usize) -> &'static str {
+    ["smooth", "nonsmooth", "textbook"][i % 3]
+}
+
+pub fn run(em: &mut Em, rng: &mut Rng) {
+    let deep = em.thorough();
+    // ---- fixed witnesses / boundary cases first
+    {
+        // truncation of the minimum document frequency: 3 documents, min_df = 0.5
+        let corpus = Corpus { fit: vec!["one two".into(), "two three".into(), "two four".into()], tr: vec!["one two two".into()] };
+        let cfg = Cfg { lower: true, norm: true, tok: 0, nmin: 1, nmax: 1, lo: 0.5, hi: 1.0, stop: None, cap: None };
+        op_count(em, &cfg, &corpus);
+        // stop words are whole entries: the bigram survives its parts
+        let cfg = Cfg { lower: true, norm: true, tok: 0, nmin: 1, nmax: 2, lo: 0.0, hi: 1.0, stop: Some(vec!["two".into(), "two three".into()]), cap: None };
+        op_count(em, &cfg, &corpus);
+        // cap with a frequency tie at the cut
+        let cfg = Cfg { lower: true, norm: true, tok: 0, nmin: 1, nmax: 1, lo: 0.0, hi: 1.0, stop: None, cap: Some(2) };
+        op_count(em, &cfg, &corpus);
+        // ligature, combining accent, case
+        let corpus = Corpus { fit: vec!["\u{fb01}sh FISH caf\u{e9} cafe\u{301}".into(), "CAF\u{c9} \u{130}st".into(), "".into()], tr: vec!["fish cafe\u{301} x".into(), "".into()] };
+        for (l, nm) in [(true, true), (true, false), (false, true), (false, false)] {
+            for tok in 0..3u8 {
+                let cfg = Cfg { lower: l, norm: nm, tok, nmin: 1, nmax: 2, lo: 0.0, hi: 1.0, stop: None, cap: None };
+                op_count(em, &cfg, &corpus);
+                for m in 0..3 {
+                    op_tfidf(em, &cfg, idf_method_name(m), &corpus);
+                }
+            }
+        }
+    }
+    // ---- NGramList directly: all ranges 1<=min<=max<=4 on short word lists
+    let pool: Vec<String> = ["a", "b", "c", "a b", ""].iter().map(|s| s.to_string()).collect();
+    for len in 0..=(if deep { 7 } else { 5 }) {
+        for nmin in 1..=4 {
+            for nmax in nmin..=4 {
+                for _ in 0..(if deep { 6 } else { 2 }) {
+                    let words: Vec<String> = (0..len).map(|_| rng.pick(&pool).clone()).collect();
+                    op_ngrams(em, &words, nmin, nmax);
+                }
+            }
+        }
+    }
+    // ---- generated corpora × settings
+    let rounds = if deep { 60000 } else { 4500 };
+    for r in 0..rounds {
+        let (max_docs, maxw) = if deep && r % 4 == 0 { (12, 10) } else { (7, 7) };
+        let corpus = gen_corpus(rng, max_docs, maxw);
+        let mut cfg = gen_cfg(rng, corpus.fit.len());
+        let tp = cfg.tokenizer_params();
+        let fit_toks: Vec<Vec<String>> = corpus.fit.iter().map(|d| tokens(&tp, d)).collect();
+        add_stop_cap(rng, &mut cfg, &fit_toks);
+        em.count(&format!("ngram:{},{}", cfg.nmin, cfg.nmax));
+        em.count(&format!("docs:{}", corpus.fit.len().min(8)));
+        if cfg.stop.is_some() {
+            em.count("stop:some");
+        }
+        if cfg.cap.is_some() {
+            em.count("cap:some");
+        }
+        if cfg.lo > 0.0 || cfg.hi < 1.0 {
+            em.count("df_window:proper");
+        }
+        match r % 3 {
+            0 | 1 => op_count(em, &cfg, &corpus),
+            _ => {
+                let m = idf_method_name(rng.below(3));
+                em.count(&format!("method:{}", m));
+                op_tfidf(em, &cfg, m, &corpus)
+            }
+        }
+        // fixed vocabulary on the same documents
+        if r % 5 == 0 {
+            let mut words: Vec<String> = vec![];
+            let all: Vec<String> = fit_toks.iter().flat_map(|d| naive_grams(d, cfg.nmin, cfg.nmax)).collect();
+            for _ in 0..rng.below(6) {
+                if !all.is_empty() && rng.chance(3, 4) {
+                    words.push(rng.pick(&all).clone());
+                } else {
+                    words.push(rng.pick(OOV).to_string());
+                }
+            }
+            let m = if r % 10 == 0 { Some(idf_method_name(rng.below(3))) } else { None };
+            op_fixed(em, &cfg, m, &words, &corpus.tr);
+        }
+    }
+    // ---- malformed settings (error branches of the parameter check; outside the property)
+    for _ in 0..(if deep { 400 } else { 60 }) {
+        let corpus = gen_corpus(rng, 4, 4);
+        let mut cfg = gen_cfg(rng, corpus.fit.len());
+        match rng.below(7) {
+            0 => cfg.nmin = 0,
+            1 => {
+                cfg.nmin = 0;
+                cfg.nmax = 0
+            }
+            2 => {
+                cfg.nmin = 3;
+                cfg.nmax = 2
+            }
+            3 => cfg.lo = -0.25,
+            4 => {
+                cfg.lo = 0.75;
+                cfg.hi = 0.25
+            }
+            5 => cfg.hi = f32::NAN,
+            _ => {
+                cfg.lo = 0.5;
+                cfg.hi = 1.5
+            }
+        }
+        em.count("malformed");
+        op_count(em, &cfg, &corpus);
+    }
+}
